@@ -165,6 +165,13 @@ void log_vmessage(struct log_type *type, enum log_severity sev, const char *form
     } else
         message = buff;
 
+    /* One message is one line: a line break inside the text (say, from
+     * a configuration value that is being quoted) would start a line
+     * of its own, with whatever header it cares to carry. */
+    for (ii = 0; message[ii] != '\0'; ++ii)
+        if (message[ii] == '\n' || message[ii] == '\r')
+            message[ii] = ' ';
+
     if (type) {
         /* Call each backend for that log severity. */
         for (ii = count = 0; ii < type->logs[sev].used; ++ii, ++count) {
